@@ -278,11 +278,20 @@ class ExprMixin:
         for f_ in facts:
             st.assume(qall([k], z3.Implies(rng, S(f_))))
         if isinstance(elt, Sc):
-            et = z3.simplify(S(elt.t))
+            et = S(elt.t)   # not simplified: Select(Lambda..., k) must stay recognisable as "element k of that array"
             if z3.is_select(et) and et.arg(1).eq(k) and not self.mentions(et.arg(0), k):
-                # [a[k] for k in range(n)]: the list is the prefix of a itself
+                # [a[k] for k in range(n)]: the list is the prefix of a itself (named, so that later terms stay small)
                 st.assume(n >= 0)
-                return st.alloc(HArr(elt.kind, et.arg(0), n, is_list=True))
+                base = et.arg(0)
+                if not z3.is_const(base):
+                    key = ("named", base.get_id())
+                    if key not in self.ufuncs:
+                        self.ufuncs[key] = (fresh("arr", base.sort()), base)   # keep `base` alive: ids are only unique among live terms
+                    c = self.ufuncs[key][0]
+                    if not any(x.eq(c == base) for x in st.pc[-40:]):
+                        st.pc.append(c == base)
+                    base = c
+                return st.alloc(HArr(elt.kind, base, n, is_list=True))
             r = new_arr(elt.kind, "comp", n=n, is_list=True)
             st.assume(qall([k], z3.Implies(rng, z3.Select(r.a, k) == S(elt.t)), pats=[z3.Select(r.a, k)]))
             st.assume(n >= 0)
@@ -750,6 +759,13 @@ class ExprMixin:
                 return self.sub_arr1(base, o, sl, node, st)
             if isinstance(o, HArr2):
                 return self.sub_arr2(base, o, sl, node, st)
+            if isinstance(o, HListArr) and isinstance(sl, ast.Slice):
+                lo, hi, step = self.slice_parts(sl, st)
+                if step not in (None, 1):
+                    raise VCError("strided slice of a list at line %d" % node.lineno)
+                s0, ln = self.clamp_slice(st, lo, hi, o.n)
+                k = z3.Int("k!lsl")
+                return st.alloc(HListArr(o.kind, z3.Lambda([k], z3.Select(o.a, s0 + k)), z3.Lambda([k], z3.Select(o.lens, s0 + k)), ln))   # a new list (python list slicing copies)
             if isinstance(o, (HListArr, HListStr)):
                 if isinstance(sl, ast.Slice):
                     raise VCError("slice of list of arrays at line %d" % node.lineno)
